@@ -110,7 +110,7 @@ func cn(c cid.Cid) string {
 	return c.String()
 }
 
-const rule = "state machine on 1-3 real Raft peers (hashicorp raft, BoltDB log, file snapshots in temp dirs, libp2p transport on loopback) with tiny snapshot threshold (2-5), snapshot interval (50-200 ms) and trailing logs (0-2): pin (well-formed pins of every type with all options, submitted at any live member so that followers redirect), unpin, an operation submitted at a follower while the leader refuses every redirected call (must not be acknowledged), restart(i), stop(i) ... start(i) while the others commit and snapshot (catch-up by log replay or by installing a snapshot over the state rebuilt from the peer's own older snapshot), offline read after a clean shutdown; model = acknowledged sequence and its prefix states; oracle after every step: every live member's pinset is a prefix state (time-free), the leader shows an acknowledged operation at once, a caught-up member equals the whole sequence, OfflineState after a clean shutdown equals the state at shutdown, every operation applied since a peer's start was handed to its tracker with equal content; non-trivial = an unpin or re-pin of a pinned CID and afterwards a restart, stop/start or enough operations for a snapshot; distinct by script"
+const rule = "state machine on 1-3 real Raft peers (hashicorp raft, BoltDB log, file snapshots in temp dirs, libp2p transport on loopback) with tiny snapshot threshold (2-5), snapshot interval (50-200 ms), trailing logs (0-2) and commit_retries 0-2: pin (well-formed pins of every type with all options, submitted at any live member so that followers redirect), unpin, an operation submitted at a follower while the leader refuses every redirected call (must not be acknowledged), restart(i), stop(i) ... start(i) while the others commit and snapshot (catch-up by log replay or by installing a snapshot over the state rebuilt from the peer's own older snapshot), offline read after a clean shutdown; model = acknowledged sequence and its prefix states; oracle after every step: every live member's pinset is a prefix state (time-free), the leader shows an acknowledged operation at once, a caught-up member equals the whole sequence, OfflineState after a clean shutdown equals the state at shutdown, every operation applied since a peer's start was handed to its tracker with equal content; non-trivial = an unpin or re-pin of a pinned CID and afterwards a restart, stop/start or enough operations for a snapshot; distinct by script"
 
 func waitCaughtUp(p *fakes.RaftPeer, want string, d time.Duration) (string, bool) {
 	deadline := time.Now().Add(d)
@@ -136,6 +136,8 @@ func TestRaftLog(t *testing.T) {
 	rapid.Check(t, func(t *rapid.T) {
 		caseNo++
 		n := rapid.IntRange(1, 3).Draw(t, "peers")
+		// commit_retries 0 is legal: one attempt, no retry
+		retries := rapid.SampledFrom([]int{0, 1, 2, 2}).Draw(t, "commitRetries")
 		tuning := fakes.RaftTuning{
 			SnapshotThreshold: uint64(rapid.IntRange(2, 5).Draw(t, "snapThreshold")),
 			SnapshotInterval:  time.Duration(rapid.IntRange(50, 200).Draw(t, "snapIntervalMs")) * time.Millisecond,
@@ -149,6 +151,7 @@ func TestRaftLog(t *testing.T) {
 		for i := 0; i < n; i++ {
 			p := fakes.NewRaftHost(gen.PeerKeys[i], filepath.Join(dir, fmt.Sprintf("p%d", i)))
 			p.Tuning = tuning
+			p.Retries = &retries
 			peers = append(peers, p)
 			ids = append(ids, p.H.ID())
 		}
@@ -170,7 +173,7 @@ func TestRaftLog(t *testing.T) {
 			}
 		}
 		m := newModel()
-		script := []string{fmt.Sprintf("peers=%d threshold=%d interval=%v trailing=%d", n, tuning.SnapshotThreshold, tuning.SnapshotInterval, tuning.TrailingLogs)}
+		script := []string{fmt.Sprintf("peers=%d threshold=%d interval=%v trailing=%d commit_retries=%d", n, tuning.SnapshotThreshold, tuning.SnapshotInterval, tuning.TrailingLogs, retries)}
 		startedAt := make([]int, n) // log length when the peer was last started
 		classes := map[string]bool{}
 		rewrote := false // an unpin or re-pin of a pinned CID happened
